@@ -55,6 +55,7 @@ type spec struct {
 	DeadT    int
 	NeedsSim bool
 	InstrFiles []instrSpec
+	Args       []string // extra worker arguments
 }
 
 var specs = map[string]*spec{}
@@ -68,6 +69,9 @@ func init() {
 	}
 	reg(&spec{ID: "C07", Pkg: "./harness/c07", Level: "exploration", ShardsQ: n, ShardsT: n, DeadQ: 240, DeadT: 1800})
 	reg(&spec{ID: "C08", Pkg: "./harness/c08", Level: "model_checking", ShardsQ: n, ShardsT: n, DeadQ: 150, DeadT: 1500})
+	tinfo := []instrSpec{{File: "terminfo/terminfo.go", Time: true}}
+	reg(&spec{ID: "C01", Pkg: "./harness/draw", Level: "model_checking", ShardsQ: n, ShardsT: n, DeadQ: 240, DeadT: 2400, Args: []string{"-prop", "C01"}, InstrFiles: tinfo})
+	reg(&spec{ID: "C13", Pkg: "./harness/draw", Level: "model_checking", ShardsQ: n, ShardsT: n, DeadQ: 240, DeadT: 2400, Args: []string{"-prop", "C13"}, InstrFiles: tinfo})
 	reg(&spec{ID: "C02", Pkg: "./harness/c02", Level: "exploration", ShardsQ: n, ShardsT: n, DeadQ: 240, DeadT: 1800})
 	reg(&spec{ID: "C03", Pkg: "./harness/c03", Level: "exploration", ShardsQ: n, ShardsT: n, DeadQ: 150, DeadT: 1500})
 	reg(&spec{ID: "C11", Pkg: "./harness/c11", Level: "exploration", ShardsQ: n, ShardsT: n, DeadQ: 200, DeadT: 1500})
@@ -283,6 +287,7 @@ func runCheck(sp *spec, tier string, extra []string) int {
 			if only != "" {
 				args = append(args, "-only", only)
 			}
+			args = append(args, sp.Args...)
 			cmd := workerCmd(sp, bin, args)
 			var stderr bytes.Buffer
 			cmd.Stderr = &stderr
@@ -467,6 +472,10 @@ func workerCmd(sp *spec, bin string, args []string) *exec.Cmd {
 	}
 	cmd.Dir = root
 	cmd.Env = append(os.Environ(), "VERIF_REPO_DIR="+repoDir(), "VERIF_ROOT_DIR="+root)
+	if os.Getenv("GOMAXPROCS") == "" && !sp.Race {
+		// one shard per core: a single P per worker avoids cross-shard scheduler contention
+		cmd.Env = append(cmd.Env, "GOMAXPROCS=1")
+	}
 	return cmd
 }
 
@@ -559,7 +568,7 @@ func replay(path string) {
 	}
 	bin := build(sp)
 	abs, _ := filepath.Abs(path)
-	cmd := workerCmd(sp, bin, []string{"-replay", abs})
+	cmd := workerCmd(sp, bin, append([]string{"-replay", abs}, sp.Args...))
 	cmd.Stdout = os.Stdout
 	cmd.Stderr = os.Stderr
 	if err := cmd.Run(); err != nil {
